@@ -245,6 +245,7 @@ def star_polygon(rng, m, nv):
 def rectilinear_polygon(rng, w, h, ncells):
     """boundary of an edge-connected set of unit cells without holes (grown cell by cell; holes are rejected by ring_simple's caller)"""
     cells = {(0, 0)}
+    ncells = min(ncells, w * h)
     while len(cells) < ncells:
         cx, cy = rng.choice(sorted(cells))
         dx, dy = rng.choice([(1, 0), (-1, 0), (0, 1), (0, -1)])
@@ -500,6 +501,7 @@ def run(ctx):
     ok_build = ctx.build_repo('rel')
     ctx.translate(units)
     ok_coq, ax = ctx.coq_build('Properties_C07')
+    ok_coq = fix_axioms_header(ctx, ok_coq, ax)
     drv = ctx.ocaml_driver('C07')
     hexe = os.path.join(BUILD, 'bin', 'c07')
     if not ok_build or not ctx.cxx(os.path.join(ROOT, 'harness/c07.cpp'), hexe, 'rel'):
@@ -523,13 +525,13 @@ def run(ctx):
             mo = ctx.run_lines([drv], [line], timeout=60)[0] if drv else None
             ctx.log('replay case: %s\n  implementation: %s\n  model:          %s\n  recorded:       %s' % (line, io, mo, obj.get('why')))
 
-    build_orientation(ctx, rng, st, bump, 1500 if q else 40000)
-    build_rings(ctx, rng, st, bump, 250 if q else 4000)
-    build_polygons(ctx, rng, st, bump, 120 if q else 2000)
-    build_segments(ctx, rng, st, bump, 1500 if q else 40000)
-    build_ccw(ctx, rng, st, bump, 400 if q else 8000)
-    build_env(ctx, rng, st, bump, 300 if q else 5000)
-    build_float(ctx, rng, st, bump, 1500 if q else 40000)
+    build_orientation(ctx, rng, st, bump, 4000 if q else 150000)
+    build_rings(ctx, rng, st, bump, 600 if q else 15000)
+    build_polygons(ctx, rng, st, bump, 300 if q else 8000)
+    build_segments(ctx, rng, st, bump, 4000 if q else 150000)
+    build_ccw(ctx, rng, st, bump, 1000 if q else 30000)
+    build_env(ctx, rng, st, bump, 500 if q else 10000)
+    build_float(ctx, rng, st, bump, 4000 if q else 150000)
     corpus = os.path.join(ROOT, 'gen/corpus/C07.txt')
     ncorpus = 0
     if os.path.exists(corpus):
@@ -542,6 +544,7 @@ def run(ctx):
     impl = ctx.run_lines([hexe], st.lines, timeout=900, chunk=5000)
     model = ctx.run_lines([drv], st.lines, timeout=1500, chunk=5000) if drv else [None] * len(st.lines)
     nfail = 0
+    known_seen = {}
     for i, line in enumerate(st.lines):
         io = impl[i] if i < len(impl) else 'MISSING'
         mo = model[i] if i < len(model) else None
@@ -555,11 +558,12 @@ def run(ctx):
             except Exception as ex:         # malformed output is a failure of the case, not of the check
                 why = 'unparsable output (%r): impl=%r model=%r' % (ex, io[:200], (mo or '')[:200])
         if why:
-            kf = match_known(ctx, meta, why)
+            kf, pre = match_known(ctx, meta, why)
             if kf is not None:
-                ctx.known_hit(kf, 'LineIntersector reports COLLINEAR_INTERSECTION (2 equal points) for a zero-length segment lying on the '
-                                  'other segment, e.g. `%s`' % line)
-                bump('known:zero-length-collinear')
+                if pre not in known_seen:
+                    known_seen[pre] = line
+                ctx.known_hit(kf, '%s, e.g. `%s`' % (KNOWN_TEXT[pre][1], known_seen[pre][:400]))
+                bump('known:' + pre.rstrip(':'))
                 continue
             nfail += 1
             if nfail <= 6:
@@ -574,16 +578,62 @@ def run(ctx):
     need = ['orient:det=0', 'orient:det=1', 'orient:det=-1', 'orient:det=2', 'orient:filter-fails', 'orient:filter-decides',
             'ring:B', 'ring:I', 'ring:E', 'ring:pt:vertex', 'ring:pt:vertex-y', 'ring:pt:edge-mid', 'poly:B', 'poly:I', 'poly:E', 'poly:in-hole',
             'seg:N', 'seg:P:proper', 'seg:P:endpoint', 'seg:C', 'seg:kind:collinear', 'seg:kind:zero-length', 'seg:kind:shared-endpoint',
-            'seg:kind:near-parallel', 'ccw:ccw', 'ccw:cw', 'float:orient', 'float:near-collinear', 'float:dd', 'float:intersection']
+            'seg:kind:near-parallel', 'ccw:ccw', 'ccw:cw', 'float:orient', 'float:near-collinear', 'float:dd', 'float:intersection', 'float:wide-collinear', 'float:segments', 'float:ring']
     for k in need:
         if dist.get(k, 0) == 0:
             ctx.broken.append(dict(kind='generator', name='distribution:' + k, detail='no case of class %s was generated' % k))
 
 
+KNOWN_TEXT = {
+    'KF:': ('zero-length segment lying on the other segment',
+            'LineIntersector reports COLLINEAR_INTERSECTION (2 equal points) for a zero-length segment lying on the other segment'),
+    'KF2:': ('orientation determinant beyond double-double resolution',
+             'orientation index / segment classification / ring location not (anti)symmetric on non-grid doubles whose orientation '
+             'determinant is below the resolution of the double-double evaluation'),
+}
+
+
+def fix_axioms_header(ctx, ok, ax):
+    """vlib.core._assumptions also matches the header line `Axioms:` that Print Assumptions prints before a non-empty axiom
+    list and then reports the word `Axioms` as a non-whitelisted axiom. Drop exactly that artefact (every real axiom name is
+    still checked against the whitelist) and run the hygiene gate that coq_build skipped. Reported to the lead."""
+    from vlib.core import AXIOM_WHITELIST, AXIOM_PREFIX_WHITELIST
+    if ok or 'Axioms' not in ax:
+        return ok
+    real = [a for a in ax if a != 'Axioms']
+    bad = [a for a in real if not (a in AXIOM_WHITELIST or a.startswith(AXIOM_PREFIX_WHITELIST))]
+    mine = [b for b in ctx.broken if b.get('kind') == 'proof' and b.get('name') == 'Print Assumptions']
+    if bad or len(mine) != 1 or "['Axioms']" not in mine[0].get('detail', ''):
+        return ok
+    ctx.broken.remove(mine[0])
+    ctx.cov['trusted_base'] = sorted(set(ctx.cov['trusted_base']) - {'Axioms'})
+    g = ctx.hygiene()
+    if g:
+        ctx.broken.append(dict(kind='proof', name='hygiene gate', detail=g))
+        return False
+    ctx.log('coq ok (axioms: %s)' % sorted(real))
+    return True
+
+
 def match_known(ctx, meta, why):
-    if meta.get('known_class') == 'zero-length-collinear' and why.startswith('KF:'):
-        return ctx.known_match(lambda k: k.get('key', {}).get('input_class') == 'zero-length segment lying on the other segment')
-    return None
+    """a failure is a known finding only if its check established the finding's specific input predicate (prefix set by the check)"""
+    for pre, (cls, _) in KNOWN_TEXT.items():
+        if why.startswith(pre):
+            return ctx.known_match(lambda k: k.get('key', {}).get('input_class') == cls), pre
+    return None, None
+
+
+def beyond_dd(a, b, c):
+    """exact test on three points with Fraction coordinates: the orientation determinant (as evaluated by
+    CGAlgorithmsDD::orientationIndex: (b-a) x (c-b)) is zero or below 2^-100 of its two products, while the coordinate
+    differences are not all representable in binary64 — the double-double products are then rounded"""
+    dx1, dy1, dx2, dy2 = b[0] - a[0], b[1] - a[1], c[0] - b[0], c[1] - b[1]
+    scale = abs(dx1 * dy2) + abs(dy1 * dx2)
+    if scale == 0:
+        return False
+    d = dx1 * dy2 - dy1 * dx2
+    wide = any(Fraction(float(v)) != v for v in (dx1, dy1, dx2, dy2))
+    return wide and abs(d) * 2 ** 100 <= scale
 
 
 # ------------------------------------------------------------------------------------------------ orientation
@@ -601,8 +651,8 @@ def build_orientation(ctx, rng, st, bump, n):
                 return 'Orientation::index returned %s, exact sign of the determinant is %d' % (t[0], s)
             if t[1] != str(s):
                 return 'GEOSOrientationIndex_r returned %s, exact sign is %d' % (t[1], s)
-            if t[2] != str(-s):
-                return 'not antisymmetric: index(b,a,c) = %s, index(a,b,c) = %s' % (t[2], t[0])
+            if t[2] != str(-s) or t[4] != str(-s):
+                return 'not antisymmetric: index(b,a,c) = %s, index(a,c,b) = %s, index(a,b,c) = %s' % (t[2], t[4], t[0])
             if t[3] != '2' and t[3] != str(s):
                 return 'orientationIndexFilter answered %s (not FAILURE) but the exact sign is %d' % (t[3], s)
             if mo is not None and mo != str(s):
@@ -862,6 +912,25 @@ def build_env(ctx, rng, st, bump, n):
         st.add(L('E', rng.choice(SCALES), [p1, p2, q1, q2]), chk, kind='env', nontrivial=True)
 
 
+def wide_collinear(rng, npts):
+    """exactly collinear points with 53-bit integer coordinates whose differences need 54 bits (beyond double-double products)"""
+    B = 2 ** 53
+    while True:
+        p = rng.randint(1, 2 ** 26); q = rng.randint(1, 2 ** 26)
+        if math.gcd(p, q) != 1:
+            continue
+        umax = min((2 * B) // p, (2 * B) // q)
+        ax = rng.randint(-B, -B + umax * p // 8); ay = rng.randint(-B, -B + umax * q // 8)
+        pts = [(ax + t * p, ay + t * q) for t in (rng.randint(0, umax - umax // 8) for _ in range(npts))]
+        if all(abs(c) <= B for pt in pts for c in pt):
+            e = rng.choice([0, 0, -60, 40, -300, 250])
+            return [(math.ldexp(float(x), e), math.ldexp(float(y), e)) for x, y in pts]
+
+
+def fr(p):
+    return (Fraction(p[0]), Fraction(p[1]))
+
+
 # ------------------------------------------------------------------------------------------------ arbitrary doubles
 def build_float(ctx, rng, st, bump, n):
     for i in range(n):
@@ -878,14 +947,18 @@ def build_float(ctx, rng, st, bump, n):
                 bump('float:near-collinear')
             else:
                 cpt = (rand_double(rng), rand_double(rng))
+            if rng.random() < 0.12:
+                a, b, cpt = wide_collinear(rng, 3)
+                bump('float:wide-collinear')
             bump('float:orient')
 
-            def chk(io, mo):
+            def chk(io, mo, a=a, b=b, cpt=cpt):
                 t = io.split()
                 if any(x.startswith('EXC') for x in t):
                     return 'exception on finite doubles: %s' % io
-                if int(t[3]) != -int(t[0]):
-                    return 'orientationIndex not antisymmetric under swapping the first two points: %s vs %s' % (t[0], t[3])
+                if int(t[3]) != -int(t[0]) or int(t[4]) != -int(t[0]):
+                    pre = 'KF2: ' if any(beyond_dd(fr(x), fr(y), fr(z)) for x, y, z in ((a, b, cpt), (b, a, cpt), (a, cpt, b))) else ''
+                    return pre + 'orientationIndex not antisymmetric under swapping two arguments: index(a,b,c) = %s, index(b,a,c) = %s, index(a,c,b) = %s' % (t[0], t[3], t[4])
                 if t[2] != t[0]:
                     return 'GEOSOrientationIndex_r = %s, CGAlgorithmsDD::orientationIndex = %s' % (t[2], t[0])
                 if mo is not None and mo.split() != t[:2]:
@@ -942,18 +1015,22 @@ def build_float(ctx, rng, st, bump, n):
             if cc < 0.2: pts[2] = pts[0]
             elif cc < 0.4:
                 t = rng.random(); pts[2] = (pts[0][0] + t * (pts[1][0] - pts[0][0]), pts[0][1] + t * (pts[1][1] - pts[0][1]))
+            elif cc < 0.55:
+                pts = wide_collinear(rng, 4)
+                bump('float:wide-collinear')
             bump('float:segments')
 
-            def chk(io, mo):
+            def chk(io, mo, pts=pts):
                 parts = io.split(' || ')
                 if 'EXC' in io:
                     return 'exception on finite doubles: ' + io[:200]
                 heads = [p.split(' | ')[0].split()[:2] for p in parts]
-                if heads[0] != heads[1] or heads[0] != heads[2]:
-                    return 'LineIntersector class / proper flag changes under swapping or reversing the segments: %s' % heads
                 caps = [p.split(' | ')[1].split()[0] for p in parts]
-                if len(set(caps)) != 1:
-                    return 'GEOSSegmentIntersection_r result changes under swapping or reversing the segments: %s' % caps
+                if heads[0] != heads[1] or heads[0] != heads[2] or len(set(caps)) != 1:
+                    f = [fr(p) for p in pts]
+                    trip = [(f[0], f[1], f[2]), (f[0], f[1], f[3]), (f[2], f[3], f[0]), (f[2], f[3], f[1])]
+                    pre = 'KF2: ' if any(beyond_dd(a, b, c) or beyond_dd(b, a, c) for a, b, c in trip) else ''
+                    return pre + 'LineIntersector class / proper flag / GEOSSegmentIntersection_r result changes under swapping or reversing the segments: %s %s' % (heads, caps)
                 return None
             st.add('SB ' + ' '.join(hx(v) for p in pts for v in p), chk, kind='float-seg', nontrivial=True)
         else:                                    # ring location on arbitrary doubles: no crash, same answer for the reversed ring
@@ -964,14 +1041,21 @@ def build_float(ctx, rng, st, bump, n):
             cc = rng.random()
             p = ring[rng.randrange(nv)] if cc < 0.2 else (math.ldexp(rng.random() - 0.5, e), ring[rng.randrange(nv)][1]) if cc < 0.5 else \
                 (math.ldexp(rng.random() - 0.5, e), math.ldexp(rng.random() - 0.5, e))
+            if rng.random() < 0.15:
+                w3 = wide_collinear(rng, 3)
+                e2 = math.frexp(w3[0][0])[1]
+                ring = [w3[0], w3[1], (math.ldexp(rng.random() - 0.5, e2), math.ldexp(rng.random() - 0.5, e2)), w3[0]]
+                p = w3[2]
+                bump('float:wide-collinear')
             bump('float:ring')
 
-            def chk(io, mo):
+            def chk(io, mo, ring=ring, p=p):
                 if 'EXC' in io:
                     return 'exception on finite doubles: ' + io[:200]
                 f, r = io.split(' | ')
                 if f.split()[:3] != r.split()[:3]:
-                    return 'ring location changes when the ring is reversed: %s vs %s' % (f, r)
+                    pre = 'KF2: ' if any(beyond_dd(fr(a), fr(b), fr(p)) or beyond_dd(fr(b), fr(a), fr(p)) for a, b in zip(ring, ring[1:])) else ''
+                    return pre + 'ring location changes when the ring is reversed: %s vs %s' % (f, r)
                 return None
             st.add('RB %s %s %d %s' % (hx(p[0]), hx(p[1]), len(ring), ' '.join('%s %s' % (hx(x), hx(y)) for x, y in ring)), chk, kind='float-ring', nontrivial=True)
 
@@ -995,7 +1079,7 @@ def corpus_check(line):
 
         def chk(io, mo):
             t = io.split()
-            if t[0] != str(s) or t[1] != str(s) or t[2] != str(-s):
+            if t[0] != str(s) or t[1] != str(s) or t[2] != str(-s) or t[4] != str(-s):
                 return 'orientation %s, exact sign %d' % (io, s)
             return None
         return chk
